@@ -208,6 +208,39 @@ theorem lawsT_handover {X : Ix → K} {x : Ix → Signal K} (h : StartsFrom X x)
 
 end handover
 
+/-! ### KCL at a node no component touches is the empty statement -/
+
+section nodes
+variable {K : Type} [Field K]
+
+theorem twoTermT_nil_of_ne {n1 n2 k : Nat} (i : ExpPoly K) (h1 : n1 ≠ k) (h2 : n2 ≠ k) : twoTermT n1 n2 k i = [] := by
+  simp [twoTermT, h1, h2, subP, smul]
+
+theorem outflowT_nil (x : Ix → Signal K) (k : Nat) (hk : k ≠ 0) (c : TCpt K) (h : k ∉ nodesOf c.1) : outflowT x k c = [] := by
+  obtain ⟨c, w⟩ := c
+  have h0 : ¬ (0 : Nat) = k := fun e => hk e.symm
+  have h' : ∀ a ∈ nodesOf c, ¬ a = k := fun a ha e => h (e ▸ ha)
+  cases c <;> simp [nodesOf] at h' <;> simp [outflowT, twoTermT, subP, smul, h', h0]
+
+theorem kclT_nil (x : Ix → Signal K) (k : Nat) (hk : k ≠ 0) (tcs : List (TCpt K)) (h : ∀ c ∈ tcs, k ∉ nodesOf c.1) :
+    kclT x k tcs = [] := by
+  induction tcs with
+  | nil => rfl
+  | cons c tcs ih =>
+    simp only [kclT, List.flatMap_cons] at ih ⊢
+    rw [outflowT_nil x k hk c (h c (by simp)), ih (fun d hd => h d (by simp [hd]))]
+    rfl
+
+theorem not_mem_nodesOf_of_nodesBelow [DecidableEq K] {n : Nat} {tcs : List (TCpt K)} (h : nodesBelow n tcs = true) {k : Nat} (hk : n ≤ k) :
+    ∀ c ∈ tcs, k ∉ nodesOf c.1 := by
+  intro c hc hm
+  have := (List.all_eq_true.mp h) c hc
+  have := (List.all_eq_true.mp this) k hm
+  simp at this
+  omega
+
+end nodes
+
 /-! ### the normal form -/
 
 section normal
@@ -458,6 +491,31 @@ theorem evalAt_of_formalZero {f : ExpPoly K} (h : FormalZero f) (t : K) : evalAt
   unfold FormalZero nf at h
   rw [h] at this
   simpa using this.symm
+
+
+/-- for a causal signal (no negative delay) `val0plus` IS the value at 0⁺ (`evalAt` at 0, u(0) = 1): a term delayed by
+    d > 0 contributes nothing, an undelayed term of order k > 0 vanishes at 0 -/
+theorem evalAt_zero_of_causal (hE0 : E 0 = 1) (f : ExpPoly K) (hc : Causal f) : evalAt E f 0 = val0plus f := by
+  induction f with
+  | nil => rfl
+  | cons x f ih =>
+    have ih' := ih (fun t ht => hc t (by simp [ht]))
+    have hx : (0 : K) ≤ x.delayOf := hc x (by simp)
+    cases x with
+    | dl c n d => simp [Term.at, val0plus, ih']
+    | ep c k p d =>
+      have hd : (0 : K) ≤ d := hx
+      cases k with
+      | zero =>
+        by_cases h0 : d = 0
+        · subst h0; simp [Term.at, val0plus, ih', pw, fact, hE0]
+        · have : ¬ d ≤ 0 := fun h => h0 (le_antisymm h hd)
+          simp [Term.at, val0plus, ih', this, h0]
+      | succ k =>
+        by_cases h0 : d = 0
+        · subst h0; simp [Term.at, val0plus, ih', pw]
+        · have : ¬ d ≤ 0 := fun h => h0 (le_antisymm h hd)
+          simp [Term.at, val0plus, ih', this]
 
 end pointwise
 
